@@ -81,6 +81,7 @@ def shards(tier):
     out = [("merge", ci, i, min(i + step, n)) for ci in range(len(CRITERIA)) for i in range(0, n, step)]
     n3 = len([m for m in msets(tier) if len(m) <= 3 or tier == "quick"])
     out += [("db", None, i, min(i + 8, n3)) for i in range(0, n3, 8)]
+    out.append(("scale", None, 0, 0))
     return out
 
 
@@ -140,9 +141,13 @@ def build(rows):
             for i, (sq, st, ft, s, e) in enumerate(rows)]
 
 
-def run_merge(db, objs, crit):
-    kw = {} if crit is None else dict(merge_criteria=crit())
-    return list(db.merge(objs, **kw))
+def run_merge(db, objs, crit, form="list"):
+    if crit is None:
+        return list(db.merge(objs))
+    c = crit()
+    # the criteria may be handed over as any iterable
+    c = {"list": c, "tuple": tuple(c), "iterator": iter(c), "generator": (x for x in c)}[form]
+    return list(db.merge(objs, merge_criteria=c))
 
 
 def describe(outs, objs):
@@ -185,26 +190,29 @@ def body_merge(ch, ctx):
     db = get_db(ctx)
     objs = build(rows)
     before = [str(o) for o in objs]
-    sig = dict(criteria=cname, pattern=pattern, history=history)
+    form = ("list", "tuple", "iterator", "generator")[(len(ms) + sum(a + b for a, b in ms) + ci) % 4]      # rotated, not multiplied
+    _rm = run_merge
+    run_merge_f = lambda db_, objs_, crit_: _rm(db_, objs_, crit_, form)
+    sig = dict(criteria=cname, pattern=pattern, history=history, criteria_given_as=form)
     ctx.sample(lambda: dict(intervals=list(ms), criteria=cname, pattern=pattern, history=history))
     try:
         if history == "after_children_bp":
             db.children_bp("g0", child_featuretype="exon", merge=True)
             db.children_bp("g0", child_featuretype="exon")
-            outs = run_merge(db, objs, crit)
+            outs = run_merge_f(db, objs, crit)
         elif history == "premerged_exact":
             run_merge(db, objs, CRITERIA[3][1])
-            outs = run_merge(db, objs, crit)
+            outs = run_merge_f(db, objs, crit)
         elif history == "twice":
-            first = describe(run_merge(db, objs, crit), objs)
-            outs = run_merge(db, objs, crit)
+            first = describe(run_merge_f(db, objs, crit), objs)
+            outs = run_merge_f(db, objs, crit)
         elif history == "outputs":
-            first_outs = run_merge(db, objs, crit)
+            first_outs = run_merge_f(db, objs, crit)
             rows2 = [(o.seqid.split(",")[0], o.strand, o.featuretype, o.start, o.end) for o in first_outs]
             objs2 = first_outs
-            outs = run_merge(db, objs2, crit)
+            outs = run_merge_f(db, objs2, crit)
         else:
-            outs = run_merge(db, objs, crit)
+            outs = run_merge_f(db, objs, crit)
     except Exception as ex:
         ctx.fail("merge-raised", dict(sig, exc=type(ex).__name__), intervals=list(ms), message=str(ex)[:200])
         ctx.nontrivial(history != "fresh")
@@ -305,8 +313,35 @@ def body_db(ch, ctx):
     dbutil.close_db(db)
 
 
+def body_scale(ch, ctx):
+    """One large database: a chain of 1300 overlapping exons (one run) plus 400 scattered singles."""
+    excl = ch.flag("exclude_components")
+    lines = []
+    for i in range(1300):
+        lines.append("c1\ts\texon\t%d\t%d\t.\t+\t.\tID=x%d" % (1 + 7 * i, 10 + 7 * i, i))
+    for i in range(400):
+        lines.append("c2\ts\texon\t%d\t%d\t.\t+\t.\tID=y%d" % (1 + 50 * i, 10 + 50 * i, i))
+    wd = ctx.fresh_dir()
+    db = gffutils.create_db(dbutil.write_text(wd, "big.gff", "\n".join(lines) + "\n"), os.path.join(wd, "big.db"), verbose=False)
+    res = db.merge_all(exclude_components=excl)
+    ctx.sample(lambda: dict(scale="1300 chained + 400 scattered exons", exclude_components=excl, merged=len(res)))
+    ctx.nontrivial()
+    ctx.outcome(("scale", excl, len(res)))
+    sig = dict(operation="merge_all_scale")
+    ext = sorted((f.seqid, f.start, f.end, len(f.children)) for f in res)
+    ctx.check(ext == [("c1", 1, 10 + 7 * 1299, 1300)], "merge_all-large-run-split", sig, got=ext[:4], expected=[("c1", 1, 10 + 7 * 1299, 1300)])
+    n = db.count_features_of_type()
+    ctx.check(n == (1 + 400 if excl else 1701), "merge_all-feature-count-differs", sig, got=n)
+    total = db.children_bp(res[0], child_featuretype="exon", merge=True) if (res and not excl) else None
+    if total is not None:
+        ctx.check(total == 10 + 7 * 1299, "children_bp-differs", sig, got=total)
+    dbutil.close_db(db)
+
+
 def body(ch, ctx):
     if ctx.shard[0] == "merge":
         body_merge(ch, ctx)
+    elif ctx.shard[0] == "scale":
+        body_scale(ch, ctx)
     else:
         body_db(ch, ctx)
